@@ -105,10 +105,16 @@ def run_replay(binary, prop, path, known=True, extra=None, timeout=300, trace=Fa
         env["VERIF_NOCATCH"] = "1"
     if env_extra:
         env.update(env_extra)
+    import resource
+    ru0 = resource.getrusage(resource.RUSAGE_CHILDREN)
     try:
         r = subprocess.run(cmd, stdout=subprocess.PIPE, stderr=subprocess.PIPE, env=env, timeout=timeout, cwd="/", preexec_fn=big_stack)
     except subprocess.TimeoutExpired as e:
-        return {"rc": None, "json": None, "stderr": (e.stderr or b"").decode("latin1"), "crashed": False, "timeout": True, "sig": "hang"}
+        # blocked (no CPU used) or merely slow (CPU-bound)?  Only the first is a hang; slow is not wrong.
+        ru1 = resource.getrusage(resource.RUSAGE_CHILDREN)
+        cpu = (ru1.ru_utime + ru1.ru_stime) - (ru0.ru_utime + ru0.ru_stime)
+        return {"rc": None, "json": None, "stderr": (e.stderr or b"").decode("latin1"), "crashed": False, "timeout": True, "sig": "hang",
+                "cpu_bound": cpu > 0.3 * timeout}
     out = r.stdout.decode("latin1")
     err = r.stderr.decode("latin1")
     js = None
@@ -642,6 +648,11 @@ def triage(binary, prop, st, fl):
     if fl["type"] == "hang":
         r = run_replay(binary, prop, path, extra=extra, timeout=120, trace=True)
         if r.get("timeout"):
+            if r.get("cpu_bound"):
+                # the case keeps the processor busy through many short library calls (each one below the per-call
+                # CPU watchdog): slow, not hung - inconclusive, never a verdict
+                print("NOTE slow case (CPU-bound for more than 120 s in isolation), no verdict: %s %s" % (path, crash_op(r["stderr"])))
+                return None
             return ("violation", path, "hang/isolated-replay>120s " + crash_op(r["stderr"]))
         if r["crashed"] or (r["json"] and r["json"]["reportable"]):
             fl = dict(fl, type="crash" if r["crashed"] else "falsified")
